@@ -26,7 +26,7 @@ ExplainsDispatch(e) ==
             [] e.op = "Unmarshal"   -> e.x2 = 1
             [] e.op = "Size"        -> e.szok = 1
             [] e.op = "GrpcMarshal" -> e.same = 1 /\ e.stab = 1
-            [] e.op \in {"Clone", "Equal", "Reset", "MarshalText", "MarshalTextSelf", "GrpcUnmarshal", "GrpcName", "EqualCross", "EqualDiff"} -> e.same = 1
+            [] e.op \in {"Clone", "Equal", "Reset", "MarshalText", "MarshalTextSelf", "UnmarshalEmpty", "GrpcUnmarshal", "GrpcName", "EqualCross", "EqualDiff"} -> e.same = 1
             [] e.op = "MsgType"     -> TRUE
             [] e.op = "MsgTypeConc" -> e.same = 1          \* every racing goroutine got the same, correct class
             [] OTHER -> FALSE
